@@ -100,7 +100,7 @@ pub fn run(thorough: bool) -> Report {
     rep.evaluations += 3 * 65536; rep.nontrivial += 3 * 65536;
     for (o, d, i) in fails { rep.fail(&o, d.clone(), i, d); }
     // 4. inline images
-    for w in 1..=3 { for h in 1..=3 { for (cs, n) in [("Gray", 1), ("RGB", 3), ("CMYK", 4), ("DeviceGray", 1), ("DeviceRGB", 3), ("DeviceCMYK", 4)] { for bpc in [1, 8] { for abbr in [true, false] { for seed in [0u8, 0x45] {
+    for w in 1..=3 { for h in 1..=3 { for (cs, n) in [("G", 1), ("RGB", 3), ("CMYK", 4), ("DeviceGray", 1), ("DeviceRGB", 3), ("DeviceCMYK", 4)] { for bpc in [1, 8] { for abbr in [true, false] { for seed in [0u8, 0x45] {
         let b = inline_image_bytes(w, h, cs, n, bpc, abbr, seed);
         rep.case(true);
         if let Err((o, d)) = check_inline(&b) { rep.fail(&o, d.clone(), json!({"kind": "inline", "bytes": hex(&b)}), d); }
